@@ -19,6 +19,15 @@ func Dump(n parser.Node) string {
 	return b.String()
 }
 
+// DumpNoGroups is Dump with parenthesis (group) nodes left out.
+func DumpNoGroups(n parser.Node) string {
+	skipGroups = true
+	defer func() { skipGroups = false }()
+	return Dump(n)
+}
+
+var skipGroups bool
+
 func typ(t *parser.Type) string {
 	if t == nil {
 		return "<nil>"
@@ -189,6 +198,10 @@ func dump(b *strings.Builder, n parser.Node) {
 		dump(b, n.Left)
 		fmt.Fprintf(b, " %s)", n.Key)
 	case *parser.GroupExpression:
+		if skipGroups {
+			dump(b, n.Expr)
+			return
+		}
 		b.WriteString("(group ")
 		dump(b, n.Expr)
 		b.WriteByte(')')
